@@ -222,3 +222,52 @@ fn c09_filters_twin_must_fail() {
     let src = any_source();
     assert!(!ibgp_split_horizon_suppress(&src, any_role(), None));
 }
+
+//@ id=C09 tier=quick cap=900 mem=24
+//@ fn: event::export::PeerExportContext::export_attrs (route-server-client role: pass-through + unknown-attribute pass), bgp::Attribute::with_partial_bit, is_opaque, is_transitive
+//@ bound: attribute list [ORIGIN, X] where X is an UNKNOWN (opaque) optional attribute with symbolic code, symbolic flags (transitive or not, Partial set or clear) and 2 symbolic value bytes; unwind 6
+//@ desc: unknown transitive attributes are forwarded with the Partial bit SET (value and code untouched), unknown non-transitive ones are dropped, known attributes are untouched
+#[kani::proof]
+#[kani::unwind(6)]
+fn c09_export_unknown_attr() {
+    let ctx = PeerExportContext {
+        role: PeerRole::RsClient,
+        local_asn: kani::any(),
+        local_addr: IpAddr::V4(Ipv4Addr::new(10, 0, 0, 254)),
+        link_addr: None,
+        confederation_id: 0,
+    };
+    let code: u8 = kani::any();
+    kani::assume(bgp::Attribute::canonical_flags(code).is_none());
+    let flags: u8 = kani::any();
+    kani::assume(flags & 0x80 != 0); // optional (the decoder stores only optional unknown attributes)
+    let val: [u8; 2] = kani::any();
+    let x = bgp::Attribute::new_opaque(code, flags, fixed_vec(val, 2));
+    let origin = bgp::Attribute::new_with_value(bgp::Attribute::ORIGIN, 0).unwrap();
+    let attrs = Arc::new(fixed_vec([origin, x], 2));
+    let keep = attrs.clone();
+    let out = ctx.export_attrs(&attrs);
+    let transitive = flags & 0x40 != 0;
+    let mut n_origin = 0;
+    let mut n_x = 0;
+    let mut i = 0;
+    while i < out.len() {
+        let a = &out[i];
+        if a.code() == bgp::Attribute::ORIGIN {
+            n_origin += 1;
+            assert!(a.value() == Some(0));
+        } else {
+            n_x += 1;
+            assert!(a.code() == code);
+            assert!(a.flags() == flags | bgp::Attribute::FLAG_PARTIAL);
+            let b = a.binary().unwrap();
+            assert!(b.len() == 2 && b[0] == val[0] && b[1] == val[1]);
+        }
+        i += 1;
+    }
+    assert!(n_origin == 1);
+    assert!(n_x == if transitive { 1 } else { 0 });
+    kani::cover!(transitive && flags & 0x20 == 0);
+    kani::cover!(!transitive);
+    core::mem::forget((out, attrs, keep));
+}
